@@ -62,8 +62,41 @@ package phyloxml
 
 //@ func io/phyloxml.writeClade
 //@   flag noframe
+//@   flag countcalls
+//@   call (*bytes.Buffer).WriteString@L0 [the_opening_tag_comes_first_at_this_clade_s_indentation] a0 == buf && (ghost(ncalls_WriteString) == old(ghost(ncalls_WriteString)) ==> a1 == tab + "<clade>\n")
+//@   call (*bytes.Buffer).WriteString@L0 [the_closing_tag_comes_after_all_sub_clades_at_the_same_indentation] ghost(ncalls_WriteString) == atexit(2, ghost(ncalls_WriteString)) && a1 == tab + "</clade>\n"
+//@   call fmt.Sprintf [name_then_length_then_confidence_each_only_when_present] a0 == ((ghost(ncalls_Sprintf) == old(ghost(ncalls_Sprintf)) && n.name != "") ? "%s<name>%s</name>\n" : ((ghost(ncalls_Sprintf) == old(ghost(ncalls_Sprintf)) + (n.name != "" ? 1 : 0) && e.length != -1.0) ? "%s<branch_length>%s</branch_length>\n" : "%s<confidence type=\"bootstrap\">%s</confidence>\n")) && ghost(ncalls_WriteString) == old(ghost(ncalls_WriteString)) + 1 + (ghost(ncalls_Sprintf) - old(ghost(ncalls_Sprintf)))
+//@   return [one_line_per_present_value_between_the_two_tags] ghost(ncalls_WriteString) == old(ghost(ncalls_WriteString)) + 2 + (n.name != "" ? 1 : 0) + ((prev != nil && e != nil && e.length != -1.0) ? 1 : 0) + ((prev != nil && e != nil && len(n.neigh) != 1 && e.support != -1.0) ? 1 : 0)
+//@   loop 2
+//@     invariant [all_values_were_written_before_the_first_sub_clade] ghost(ncalls_WriteString) == old(ghost(ncalls_WriteString)) + 1 + (n.name != "" ? 1 : 0) + ((prev != nil && e != nil && e.length != -1.0) ? 1 : 0) + ((prev != nil && e != nil && len(n.neigh) != 1 && e.support != -1.0) ? 1 : 0)
+//@     step [one_sub_clade_per_neighbour_other_than_the_parent] ghost(ncalls_writeClade) == atHead(ghost(ncalls_writeClade)) + (n.neigh[rangeindex + 1] != prev ? 1 : 0)
 //@   requires n != nil && allocated(n) && buf != nil && INV12()
 //@   call fmt.Sprintf [values_are_written_through_their_exact_string_forms] (a0 == "%s<name>%s</name>\n" || a0 == "%s<branch_length>%s</branch_length>\n" || a0 == "%s<confidence type=\"bootstrap\">%s</confidence>\n") && len(a1) == 2
 //@   call (*tree.Edge).LengthString [the_length_of_the_branch_leading_to_the_node] a0 == e && e.length != -1.0
 //@   call (*tree.Edge).SupportString [the_support_of_the_branch_leading_to_an_inner_node] a0 == e && e.support != -1.0 && len(n.neigh) != 1
 //@   call io/phyloxml.writeClade [every_other_neighbour_is_written_one_level_deeper_with_the_branch_leading_to_it] a0 == child && child != prev && a1 == n && a2 == nextedge && nextedge == n.br[rangeindex + 1] && a3 == buf && a4 == level + 1
+
+// writePhylogeny / WritePhyloXML (property C13): one phylogeny element per tree received, opened with the tree's own
+// rootedness, holding the clade of the tree's root (no parent, no branch, first level), then closed; the first erroneous
+// tree stops the conversion with its error and no text
+//@ func io/phyloxml.writePhylogeny
+//@   flag noframe
+//@   flag countcalls
+//@   requires t != nil && buf != nil
+//@   call (*tree.Tree).Rooted [the_rootedness_announced_is_that_of_this_tree] a0 == t
+//@   call fmt.Sprintf [the_element_is_opened_with_the_rootedness] a0 == "  <phylogeny rooted=\"%t\">\n" && len(a1) == 1 && ghost(ncalls_WriteString) == old(ghost(ncalls_WriteString))
+//@   call io/phyloxml.writeClade [the_clade_of_the_root_with_no_parent_and_no_branch_at_the_first_level] a0 == t.root && a1 == nil && a2 == nil && a3 == buf && a4 == 1 && ghost(ncalls_WriteString) == old(ghost(ncalls_WriteString)) + 1
+//@   call (*bytes.Buffer).WriteString [the_element_is_closed_after_the_clade] a0 == buf && (ghost(ncalls_writeClade) > old(ghost(ncalls_writeClade)) ==> a1 == "  </phylogeny>\n")
+//@   ensures [opened_filled_and_closed_once] ghost(ncalls_WriteString) == old(ghost(ncalls_WriteString)) + 2 && ghost(ncalls_writeClade) == old(ghost(ncalls_writeClade)) + 1
+
+//@ func io/phyloxml.WritePhyloXML
+//@   flag noframe
+//@   flag countcalls
+//@   requires tchan != nil
+//@   recv tchan [message_is_a_tree_or_an_error] msg.Err == nil ==> msg.Tree != nil
+//@   call io/phyloxml.writePhylogeny [one_phylogeny_per_tree_received_without_error] a0 == t.Tree && t.Err == nil
+//@   call (*bytes.Buffer).WriteString@L0 [the_document_element_is_closed_after_the_last_tree] ghost(ncalls_WriteString) > old(ghost(ncalls_WriteString)) ==> a1 == "</phyloxml>\n"
+//@   return@L1 [the_first_erroneous_tree_stops_the_conversion_with_its_error_and_no_text] result1 == t.Err && result1 != nil && result0 == ""
+//@   return@L0 [otherwise_the_text_is_returned_without_error] result1 == nil
+//@   loop 1
+//@     step [one_phylogeny_per_tree] ghost(ncalls_writePhylogeny) == atHead(ghost(ncalls_writePhylogeny)) + 1
